@@ -132,6 +132,8 @@ pub struct Cfg {
     pub est_steps: u64,
     /// starve release: after this many consecutive steps of other slots the starved slot becomes eligible again
     pub starve_release: u64,
+    /// closure-level events are processed only every 2^quiet-th time
+    pub quiet: u8,
 }
 
 impl Default for Cfg {
@@ -147,6 +149,7 @@ impl Default for Cfg {
             tolerant_replay: false,
             est_steps: 100,
             starve_release: 0,
+            quiet: 0,
         }
     }
 }
@@ -200,6 +203,7 @@ struct State {
     abort: Option<String>,
     pct_points: Vec<u64>,
     since_starved: u64,
+    quiet_ctr: u64,
 }
 
 impl State {
@@ -220,6 +224,7 @@ impl State {
             abort: None,
             pct_points: vec![],
             since_starved: 0,
+            quiet_ctr: 0,
         }
     }
 }
@@ -562,6 +567,12 @@ fn event(kind: Kind, stage: u16, a: u64, b: u64, may_yield: bool) -> bool {
             if std::thread::panicking() {
                 // unwinding: table-only for drops; nothing is logged, nothing yields
                 return false;
+            }
+            if st.cfg.quiet > 0 && kind != Kind::Panic {
+                st.quiet_ctr += 1;
+                if st.quiet_ctr & ((1u64 << st.cfg.quiet) - 1) != 0 {
+                    return false;
+                }
             }
             st.log.push(Event {
                 slot: me as u16,
